@@ -9,3 +9,4 @@ export CARGO_NET_OFFLINE=true
 export RUSTUP_TOOLCHAIN=stable
 vcargo_hooks() { RUSTFLAGS="--cfg metrics_verif" CARGO_TARGET_DIR="$VERIF_ROOT/target/hooks" cargo "$@"; }
 vcargo_loom()  { CARGO_TARGET_DIR="$VERIF_ROOT/target/loom" cargo "$@"; }
+vcargo_loomb() { RUSTFLAGS="--cfg crossbeam_loom" CARGO_TARGET_DIR="$VERIF_ROOT/target/loomb" cargo "$@"; }
